@@ -3,6 +3,7 @@ package main
 // Calls: contracts, interface contracts, inlining, built-ins, locks, havoc.
 
 import (
+	"os"
 	"fmt"
 	"go/token"
 	"go/types"
@@ -666,6 +667,36 @@ func (vc *VC) applyContractX(fr *Frame, spec *FuncSpec, name string, sig *types.
 		for _, m := range locs {
 			vc.frameCheck(m.Heap, m.Idx, pos)
 		}
+		// a callee that changes lock-protected ghost state (e.g. the contents
+		// of a shared cache) must be called with one of the protecting locks
+		// held, shared or exclusive
+		if !vc.lockChecksOff && vc.discovery == 0 && spec.Assumed && !spec.Shrinks && (spec.Iface != "" || vc.p.funcs[spec.Key] == nil || !strings.HasPrefix(spec.Key, "github.com/AdguardTeam/AdGuardDNS") && !strings.HasPrefix(spec.Key, "(*github.com/AdguardTeam/AdGuardDNS")) {
+			// (leaf operations only: interface and dependency contracts; a
+			// repository function may take the lock itself)
+			prot := vc.p.protectedHeaps(vc)
+			done := map[string]bool{}
+			for _, m := range locs {
+				if !strings.HasPrefix(m.Heap, "G.") || done[m.Heap] {
+					continue
+				}
+				specs := prot[m.Heap]
+				if len(specs) == 0 {
+					continue
+				}
+				done[m.Heap] = true
+				held := false
+				for id := range vc.st.held {
+					for _, ls := range specs {
+						if strings.HasPrefix(strings.TrimSuffix(id, "#r"), ls.TypeKey+"."+strings.Join(ls.Path, ".")+"@") {
+							held = true
+						}
+					}
+				}
+				if !held {
+					vc.oblige("lock", "held-for:"+m.Heap+":"+name, "false", pos, name+" changes lock-protected state "+m.Heap+" and must be called with a protecting lock held")
+				}
+			}
+		}
 		for _, m := range locs {
 			vc.havocLoc(m)
 		}
@@ -927,10 +958,10 @@ func (vc *VC) lockSpecFor(v *Val, suffix []string) (*LockSpec, *Val, string) {
 	key := n.Obj().Pkg().Path() + "." + n.Obj().Name()
 	for _, ls := range vc.p.db.Locks {
 		if ls.TypeKey == key && strings.Join(ls.Path, ".") == strings.Join(fields, ".") {
-			return ls, v.PRoot, key + "." + strings.Join(fields, ".") + "@" + v.PRoot.T
+			return ls, v.PRoot, key + "." + strings.Join(fields, ".") + "@" + vc.canon(v.PRoot.T)
 		}
 	}
-	return nil, v.PRoot, key + "." + strings.Join(fields, ".") + "@" + v.PRoot.T
+	return nil, v.PRoot, key + "." + strings.Join(fields, ".") + "@" + vc.canon(v.PRoot.T)
 }
 
 func (vc *VC) lockEnv(ls *LockSpec, self *Val, old *State) *Env {
@@ -991,6 +1022,9 @@ func (vc *VC) lockOp(fr *Frame, recv *Val, suffix []string, op string, pos token
 			vc.st.held[id+"#r"] = true
 		}
 	case "unlock", "runlock":
+		if os.Getenv("GOVC_DEBUG") != "" {
+			fmt.Fprintf(os.Stderr, "unlock id=%s held=%v\n", id, vc.st.held)
+		}
 		if !vc.st.held[id] && vc.discovery == 0 {
 			vc.oblige("lock", "held", "false", pos, "unlock of a lock that is not held")
 		}
